@@ -27,9 +27,16 @@ class Ctx:
             self.expand_wires()
             self.t.wires_expanded = True
         self.expand_array_selects()
+        self.split_cat_targets()
         self.alias_wires()
         self.groups, self.tir = {}, {}
         for d in self.t.drivers:
+            # values that contain a replicated-strobe mask are stored in their Mux form (needs the width knowledge of this context)
+            if ir.contains(d.value, lambda x: x[0] == 'call' and x[1][0] == 'attr' and x[1][2] == 'replicate'):
+                try:
+                    d.value = self.norm(d.value)
+                except Exception:
+                    pass
             tn = self.norm(d.target)
             key = (d.domain, ir.show(tn))
             self.groups.setdefault(key, []).append(d)
@@ -113,6 +120,26 @@ class Ctx:
             kept = tuple(fr for fr in d_.gen if not (fr[0] == 'pyif' and fr[2] and ir.norm(fr[1], self.nctx) == own))
             gen = kept + tuple(fr for fr in extra if fr not in kept)
             out.append(dsl.Driver(d_.domain, d_.target, expr, d_.dsl + (('if', cond),), gen, d_.order, d_.lineno, d_.seqno))
+        self.t.drivers[:] = out
+
+    def split_cat_targets(self):
+        """Cat(a, b).eq(Cat(x, y)) with every part one bit wide is a.eq(x); b.eq(y)."""
+        if getattr(self.t, "cats_split", False):
+            return
+        self.t.cats_split = True
+        out = []
+        for d_ in self.t.drivers:
+            try:
+                tn, vn = ir.norm(d_.target, self.nctx), ir.norm(d_.value, self.nctx)
+            except Exception:
+                out.append(d_)
+                continue
+            if tn[0] == 'call' and tn[1] == ('name', 'Cat') and vn[0] == 'call' and vn[1] == ('name', 'Cat') and \
+                    len(tn[2]) == len(vn[2]) and tn[2] and all(self.w.bit(x) for x in tn[2]) and all(self.w.bit(x) for x in vn[2]):
+                for k_, (tp, vp) in enumerate(zip(tn[2], vn[2])):
+                    out.append(dsl.Driver(d_.domain, tp, vp, d_.dsl, d_.gen, tuple(d_.order) + (k_,), d_.lineno, d_.seqno))
+            else:
+                out.append(d_)
         self.t.drivers[:] = out
 
     def alias_wires(self):
@@ -233,7 +260,54 @@ class Ctx:
         e = ir.norm(e, self.nctx)
         if ir.contains(e, lambda x: x[0] == 'last'):
             e = ir.norm(ir.subst(e, self._last), self.nctx)
+        if ir.contains(e, lambda x: x[0] == 'call' and x[1][0] == 'attr' and x[1][2] == 'replicate'):
+            e2 = ir.subst(e, self._mask_to_mux)
+            if e2 != e:
+                e = ir.norm(e2, self.nctx)
         return e
+
+    def width_of(self, e):
+        """Width of a value where it can be read off: a slice with unit step, a declared member of this component, a local
+        signal created with an explicit width.  None otherwise."""
+        if e[0] == 'sub' and e[2][0] == 'slice' and e[2][3] in (('const', 1), ('const', None)):
+            lo = e[2][1] if e[2][1] != ('const', None) else ('const', 0)
+            hi = e[2][2]
+            if hi == ('const', None):
+                return None
+            # word_select(k, w): [k*w : (k+1)*w]
+            if hi[0] == 'nary' and hi[1] == '*' and lo[0] == 'nary' and lo[1] == '*':
+                common = [f for f in hi[2] if f in lo[2]]
+                for w_ in common:
+                    rh = [f for f in hi[2] if f != w_]
+                    rl = [f for f in lo[2] if f != w_]
+                    if len(rh) == 1 and len(rl) == 1 and ir.norm(('bin', '-', rh[0], rl[0]), self.nctx) == ('const', 1):
+                        return w_
+            if hi[0] == 'nary' and hi[1] == '*' and lo == ('const', 0):
+                pass
+            return ir.norm(('bin', '-', hi, lo), self.nctx)
+        if e[0] == 'sig' and e[1] in self.t.sigs:
+            ctor = self.t.sigs[e[1]].ctor
+            if ctor[0] == 'call' and ctor[1] == ('name', 'Signal') and ctor[2] and ctor[2][0][0] != 'call':
+                return ir.norm(ctor[2][0], self.nctx)
+            return None
+        try:
+            return self.declared_width(e)
+        except Exception:
+            return None
+
+    def _mask_to_mux(self, x):
+        """X & s.replicate(n) with s one bit and n the width of X  ==  Mux(s, X, 0)."""
+        if x[0] != 'nary' or x[1] != '&' or len(x[2]) != 2:
+            return None
+        for m_, v_ in ((x[2][0], x[2][1]), (x[2][1], x[2][0])):
+            if m_[0] == 'call' and m_[1][0] == 'attr' and m_[1][2] == 'replicate' and len(m_[2]) == 1 and not m_[3] and self.w.bit(m_[1][1]):
+                n = ir.norm(m_[2][0], self.nctx)
+                if n == ir.norm(('call', ('name', 'len'), (v_,), ()), self.nctx):
+                    return ('call', ('name', 'Mux'), (m_[1][1], v_, ('const', 0)), ())
+                w_ = self.width_of(v_)
+                if w_ is not None and w_ == ir.norm(n, self.nctx):
+                    return ('call', ('name', 'Mux'), (m_[1][1], v_, ('const', 0)), ())
+        return None
 
     def _last(self, x):
         """A loop index used after its loop denotes the last element: hi - 1 of a range, len(E) - 1 of a sequence."""
@@ -698,6 +772,12 @@ def refuses(c, cond_texts, exc=None, env=None, loop_values=None):
             for f, e, ln, via in sites:
                 if (exc is None or e == exc) and f != dl.F and dl.implies(c.eng, f, w)[0] and not dl.equivalent(c.eng, f, dl.F)[0]:
                     return True, f"raise {e} at line {ln}" + (f" (in {via})" if via else "")
+            # one raise statement that serves several refusals (its condition is a choice between them): it fires whenever
+            # this refusal's condition holds, and it is not an unconditional raise
+            for f, e, ln, via in sites:
+                if (exc is None or e == exc) and f not in (dl.F, dl.T) and dl.implies(c.eng, w, f)[0] and \
+                        not dl.equivalent(c.eng, f, dl.T)[0]:
+                    return True, f"raise {e} at line {ln} (shared with other refusals)" + (f" (in {via})" if via else "")
         except Undecided:
             continue
     return False, f"no `raise {exc or ''}` is guarded by a condition equivalent to `{cond_texts if isinstance(cond_texts, str) else cond_texts[0]}`"
